@@ -243,6 +243,23 @@ prop("C16", "ConnState, Err() and Done() tell the truth", "fault_enumeration",
      assumptions=["no order between Active and Closed is asserted (Connect can lose the race when the peer closes right after CONNACK)",
                   "'healthy' = no fault has been applied to that connection; once any ending was issued Err() is unconstrained until observed"])
 
+prop("C11", "every blocking call returns on cancel or connection end", "fault_enumeration",
+     "grid, enumerated completely in both tiers: call in {Connect, Publish q1, Publish q2, Subscribe, Unsubscribe, Ping, Disconnect} "
+     "x step in {cause already present, request written and (first) answer withheld, q2 between PUBREC and PUBCOMP, blocked "
+     "inside Transport.Write} x cause in {context cancel, context deadline, local Close, peer close, malformed packet}; plus "
+     "rapid-generated combinations of 2..6 calls blocked at once under one cause, and Connect / Disconnect of the ReconnectClient "
+     "x phase {dialling (held dialler), connecting (CONNACK withheld), waiting to redial} x {cancel, deadline}. Oracle: every call "
+     "returns (20 s bound, goroutine dump on miss); context causes with the link up: errors.Is(err, ctx.Err()); link-end causes: "
+     "non-nil error, Done() closed and no goroutine with a (*BaseClient).serve / Connect.func1 frame left. Non-trivial = every "
+     "cell except Disconnect x cause-before-call; distinct = distinct cells + distinct combinations (FNV-64 of the case JSON).",
+     [dict(tests="^TestVerifC11_Grid$", exhaustive_once=True),
+      dict(tests="^TestVerifC11_Combo$", checks_quick=3000, checks_thorough=30000, shards=8),
+      dict(tests="^TestVerifC11_ReconnectGrid$", checks_quick=300, checks_thorough=2000, shards=4)],
+     assumptions=["requests are issued after Connect returned (a request overlapping an unfinished Connect waits for the connect lock by design)",
+                  "a context cannot interrupt a blocked Transport.Write (left to the transport's deadlines): 'write' cells exist for link-end causes only",
+                  "with the context finished before the call the answer is withheld too, so that success is not a legitimate outcome"],
+     exhaustive_note="the (call, step, cause) grid of the base client is enumerated completely; combinations and reconnect phases are sampled")
+
 # ---------------------------------------------------------------------------------------------
 # texts for MANIFEST.json (tools/gen_manifest.py)
 
@@ -356,3 +373,8 @@ mtext("C16", "E5 scripted peer (racing endings) + E4 runner with keep-alive",
       "rapid property tests; oracle = small automaton over the per-connection callback log plus sampled Err()/Done() at healthy and ended points",
       "Sampling of ending combinations and schedules (generated yields); replays repeat a case 10-50 times because the races are schedule dependent.",
       E4NOTE, "DESIGN.md section 4 / C16")
+
+mtext("C11", "E5 scripted peer stopping exchanges at a step; gated dialer for the reconnecting client",
+      "exhaustive enumeration of the (call, step, cause) grid + rapid-generated combinations; oracle = call returned, error class, Done closed, reader goroutine gone (goroutine dump)",
+      "The finite grid is run completely on every invocation; multi-call combinations and reconnect phases are sampled. A call still parked "
+      "20 s after the stimulus is reported with the goroutine dump.", "goroutine dumps identify the reader goroutine by function name", "DESIGN.md section 4 / C11")
